@@ -339,6 +339,7 @@ def task_calls(job, calls) -> list:
     results = []
     exc_mod = importlib.import_module(core + ".exceptions")
     transport_mod = importlib.import_module(core + ".http_transport")
+    sessions: dict = {}
     for call in calls:
         captured = []
         reply = call.get("reply", {"status": 200})
@@ -359,10 +360,17 @@ def task_calls(job, calls) -> list:
 
         base_url = call.get("base_url", "http://testserver/api")
         mock = httpx.MockTransport(handler)
-        if call.get("transport", "bundled") == "bundled":
+        sid = call.get("session")
+        if call.get("transport", "bundled") == "bundled" and sid is not None and sid in sessions:
+            # a later call of a session: the SAME transport object (its default headers, auth and whatever it remembers), a new wire
+            tr, old = sessions[sid], None
+            tr._client = httpx.AsyncClient(base_url=base_url, transport=mock)
+        elif call.get("transport", "bundled") == "bundled":
             tr = transport_mod.HttpxTransport(base_url, **{k: v for k, v in call.get("transport_kwargs", {}).items()})
             old = tr._client
             tr._client = httpx.AsyncClient(base_url=base_url, transport=mock)
+            if sid is not None:
+                sessions[sid] = tr
         else:
             class PassThrough:
                 def __init__(self):
